@@ -391,7 +391,8 @@ func (s *Rtmp2MpegtsRemuxer) feedVideo(msg base.RtmpMsg) {
 }
 
 func (s *Rtmp2MpegtsRemuxer) feedAudio(msg base.RtmpMsg) {
-	if len(msg.Payload) <= 2 {
+	// aac的头部是2字节，其他音频格式（g711、opus）的头部只有1字节，它们的1字节的帧（比如opus的DTX帧）是合法的
+	if len(msg.Payload) < 2 || (msg.AudioCodecId() == base.RtmpSoundFormatAac && len(msg.Payload) <= 2) {
 		Log.Warnf("[%s] rtmp msg too short, ignore. header=%+v, payload=%s", s.uk, msg.Header, hex.Dump(msg.Payload))
 		return
 	}
